@@ -310,6 +310,11 @@ def hdl21_naming_encoder(obj: Any) -> Any:
     if dataclasses.is_dataclass(obj):
         return {f.name: getattr(obj, f.name) for f in dataclasses.fields(obj)}
 
+    if isinstance(obj, (set, frozenset)):
+        # Sets have no order of their own, and the order they iterate in differs from one process to the next.
+        # Names must not: list the members in the order of their own encodings.
+        return sorted(obj, key=lambda member: json.dumps(member, default=hdl21_naming_encoder))
+
     # Not an Hdl21 type. Hand off to pydantic.
     return pydantic_json_encoder(obj)
 
